@@ -267,11 +267,14 @@ def run(prop, cases, flavours_mode="reference", timeout_ms=20000, jobs=16, run_n
         for (label, status, mdl, secs, reason), (_, a, b, want) in zip(out, queries):
             stats.solver_s += secs
             if label == "twin":
-                stats.twins += 1
                 if status == "sat":
+                    stats.twins += 1
                     stats.twins_sat += 1
                 elif status == "unsat":
+                    stats.twins += 1
                     stats.inconclusive.append((c.tag, "%s: vacuity twin was not distinguishable" % ".".join(path)))
+                else:
+                    stats.twins_unknown = getattr(stats, "twins_unknown", 0) + 1       # solver gave no answer for the twin: no information
                 continue
             stats.queries += 1
             if status == "unsat":
